@@ -594,6 +594,66 @@ def merge(stats):
     return out
 
 
+def error_routing(ctx, rnd):
+    """every error an operation raises goes to the handler of the context the operation was given: the same call is
+    made once with cfg == NULL (the default handler's lines are read back from stderr) and once with a context;
+    the context's handler must receive exactly that sequence, with its own user pointer, nothing may reach stderr
+    or another context's handler.  Single keys, key arrays and JWKSets, any- and all-mode, every entry point."""
+    import jwsgen as G
+    import hashlib
+    import hmac as pyhmac
+    rep = ctx["rep"]
+    bdir = ctx["bdir"]
+    J = G.dumps
+    keys = G.standard_keys(bdir)
+    k1 = G.oct_key(rnd, 32)
+    kb = dict(G.oct_key(rnd, 64), alg="HS512")
+    kenc = dict(G.oct_key(rnd, 32), use="enc")
+    kshort = G.oct_key(rnd, 8)
+    prot = G.b64(J({"alg": "HS256"}).encode())
+    pay = G.b64(b"c17")
+    tok = {"protected": prot, "payload": pay, "signature": G.b64(pyhmac.new(G.unb64(k1["k"]), (prot + "." + pay).encode(), hashlib.sha256).digest())}
+    kw = G.oct_key(rnd, 16)
+    kwbad = dict(G.oct_key(rnd, 16), alg="A256KW")
+    jwe = G.harness(bdir, ["jweenc\t%s\t-\t%s\t00" % (J({"protected": {"alg": "A128KW", "enc": "A128GCM"}}), J(kw))])[0]
+    ec, ec384 = keys["P-256"], keys["P-384"]
+    cases = []
+    for ks in (kb, kenc, kshort, [kb, k1], [k1, kb], [kenc, kb, k1], {"keys": [kb, k1]}, {"keys": [kshort, kenc]}, []):
+        for all_ in ("0", "1"):
+            cases.append("cfgroute\tver\t%s\t%s\t%s" % (J(tok), J(ks), all_))
+    for tm, k in (({"protected": {"alg": "HS512"}}, k1), ({"protected": {"alg": "HS256"}}, kb), (None, kenc), ({"protected": {"alg": "nope"}}, k1),
+                  ({"protected": {"alg": "HS256"}}, [k1, kb]), (None, [kshort, k1]), ({"protected": {"alg": "ES256"}}, k1)):
+        cases.append("cfgroute\tsig\t%s\t%s\t%s" % (J({"payload": pay}), "-" if tm is None else J(tm), J(k)))
+    if not jwe.startswith(("ERR", "CRASH")):
+        for k in (kwbad, dict(kw, use="sig"), [kwbad, kw], {"keys": [dict(kw, use="sig"), kwbad]}, G.oct_key(rnd, 24), ec):
+            cases.append("cfgroute\tdec\t%s\t%s" % (jwe, J(k)))
+    for tm, k in (({"protected": {"alg": "A128KW", "enc": "A128GCM"}}, kwbad), ({"protected": {"alg": "A128KW"}}, dict(kw, use="sig")),
+                  ({"protected": {"alg": "nope"}}, kw), ({"protected": {"enc": "nope"}}, kw), ({"protected": {"alg": "A128KW"}}, [kw, kwbad])):
+        cases.append("cfgroute\tenc\t%s\t%s" % (J(tm), J(k)))
+    for a, b in ((dict(ec, use="sig"), G.pub_of(ec)), (ec, dict(G.pub_of(ec), key_ops=["sign"])), (ec, G.pub_of(ec384)), (dict(ec, alg="ECMR"), dict(G.pub_of(ec), alg="ECDH")), (k1, G.pub_of(ec))):
+        cases.append("cfgroute\texc\t%s\t%s" % (J(a), J(b)))
+    outs = vlib.run_cases(os.path.join(bdir, "h"), cases)
+    raised = 0
+    for c, o in zip(cases, outs):
+        if o.startswith("CRASH"):
+            rep.violation("route:crash:" + c.split("\t")[1], "crash: " + o[:200], {"case": c[:800]})
+            continue
+        f = dict(x.split("=", 1) for x in o.split(" ") if "=" in x)
+        raised += bool(f.get("null"))
+        op = c.split("\t")[1]
+        if f.get("stderr") != "0":
+            rep.violation("route:default-handler-used:" + op, "an error raised while %s ran under a caller's context was written to stderr by the DEFAULT handler (%s bytes)" % (op, f.get("stderr")),
+                          {"case": c[:1500], "implementation": o})
+        elif f.get("other") != "0":
+            rep.violation("route:other-context:" + op, "an error raised under one context reached another context's handler", {"case": c[:1500], "implementation": o})
+        elif f.get("null") != f.get("ctx"):
+            rep.violation("route:handler-missed:" + op, "with cfg == NULL the operation reports [%s]; under a context its handler receives [%s]" % (f.get("null"), f.get("ctx")),
+                          {"case": c[:1500], "implementation": o})
+    if raised < len(cases) // 3:
+        rep.violation("route:too-few-errors", "the error-routing cases no longer raise errors (%d of %d): the generator needs attention" % (raised, len(cases)), {"cases": len(cases)}, found=False)
+    return len(cases)
+
+
 def correspond(ctx):
     tier, rep = ctx["tier"], ctx["rep"]
     rnd = random.Random(ctx["seed"] * 1000003 + 17)
@@ -640,7 +700,10 @@ def correspond(ctx):
         rule="threads: 2..16 threads of independent operations vs. sequential execution of the same sequences (model side: the executable thread system of Conc/Interleave.v under a seed-derived schedule)",
         dist=dict(tdist))
 
+    nroute = error_routing(ctx, rnd)
     st = merge([s1, s2, s3])
+    st["evaluations"] += nroute
+    st["dist"]["error routing: operations under a context vs under NULL"] = nroute
     st["dist"]["cfg: model variant selected by probing (h|m = get_err_misc returns handler|misc, c|o = decref(NULL) crashes|ok)"] = variant
     st["dist"].update(static_scan(rep))
     if tier == "thorough":
